@@ -16,7 +16,7 @@ LEVEL = "exploration"
 RULE = ("typed E5 trees from seeded boundary-biased generators (all leaf types x constructor input forms x element "
         "counts incl. length-byte boundaries, homogeneous arrays, keyed records, ANYVALUE nestings, every catalogued "
         "data item x every allowed type); a case is distinct by (class, input form, canonical reference bytes) and "
-        "non-trivial when the class accepted the value so that all four oracles ran; plus: variables built from a list that the caller changes afterwards")
+        "non-trivial when the class accepted the value so that all four oracles ran; plus: variables built from a list that the caller changes afterwards; Dynamic without a type list as holder of any item; plain 1 / 1.0 / True (0 / 0.0 / False) one after the other into the same Dynamic type list")
 ASSUMPTIONS = ["the reference codec lib/e5ref.py implements SEMI E5 section 9 item encoding correctly",
                "values the class rejects at construction are outside the property (counted, not judged)"]
 LEVEL_TEXT = ("Differential runtime monitoring: the real variable classes encode/decode tens of thousands of generated "
@@ -26,7 +26,7 @@ LEVEL_NOTE = "Trusts lib/e5ref.py as the E5 reference; says nothing about values
 TECHNIQUE = "runtime differential oracle (reference codec) over generated inputs"
 SHARDS = {"quick": 8, "thorough": 16}
 TIMEOUT = {"quick": 240, "thorough": 3000}
-FLOORS = {"oracle.encode": 2000, "oracle.decode_fresh": 2000, "oracle.decode_reused": 1000, "oracle.get": 2000,
+FLOORS = {"oracle.equal_values_of_other_kinds": 500, "accepted.dynamic-all-types": 1000, "oracle.encode": 2000, "oracle.decode_fresh": 2000, "oracle.decode_reused": 1000, "oracle.get": 2000,
           "exhaustive.single_byte": 3 * 256, "dataitem.cases": 300, "boundary.len_256": 10, "boundary.len_65536": 1}
 
 
@@ -238,6 +238,10 @@ def _record_case(ctx):
                expected=exp, reuse_with=(lambda: V.List(data_format), lambda: V.List(data_format, value)))
 
 
+def _has_fmt_below(tree, fmt):
+    return tree[0] == "L" and any(k[0] == fmt or _has_fmt_below(k, fmt) for k in tree[1])
+
+
 def _anyvalue_case(ctx, depth):
     rng = ctx.rng
     V = sv.V
@@ -246,6 +250,11 @@ def _anyvalue_case(ctx, depth):
     _check_obj(ctx, "anyvalue", lambda: sv.ANYVALUE(sv.to_variable(tree, rng)), tree, f"ANYVALUE/depth{gen.depth_of(tree)}",
                reuse_with=(sv.ANYVALUE, lambda: sv.ANYVALUE(sv.to_variable(other))))
     ctx.maximum("nesting_depth", gen.depth_of(tree))
+    # Dynamic without a type list ("all types"): holds, encodes and decodes any item, lists and JIS-8 text included
+    # (elements of a list are read as ANYVALUE, whose definition has no JIS-8: no J below the top level)
+    if tree[0] != "L" or not _has_fmt_below(tree, "J"):
+        _check_obj(ctx, "dynamic-all-types", lambda: V.Dynamic([], sv.to_variable(tree, rng)), tree, f"Dynamic[]/{tree[0]}",
+                   reuse_with=(lambda: V.Dynamic([]), None))
     # Dynamic restricted to a type set, fed a typed wrapper and a plain value
     if tree[0] != "L":
         fmt = tree[0]
@@ -306,6 +315,47 @@ def _plain_dynamic_case(ctx):
     except Exception as exc:
         ctx.violation(f"dynamic-plain-raises:{type(exc).__name__}", {"value": repr(val), "types": [t.__name__ for t in types],
                                                                       "error": repr(exc)[:200]})
+
+
+def _equal_values_of_other_kinds(ctx):
+    """Plain values that compare equal in Python but are of different kinds (1, 1.0, True; 0, 0.0, False), one after the other
+    and in any order, into Dynamic items whose type list has a type for each kind: each one is held, read back and sent as its
+    own kind, whatever was handled before."""
+    rng = ctx.rng
+    V = sv.V
+    ifmt, ffmt = rng.choice(e5ref.INT_FMTS), rng.choice(["F4", "F8"])
+    types = [sv.VCLS[ifmt], sv.VCLS[ffmt], sv.VCLS["BOOLEAN"]] + [sv.VCLS[f] for f in rng.sample(["A", "B"], rng.randint(0, 2))]
+    rng.shuffle(types)
+    if rng.random() < 0.3:
+        types = []          # "all types"
+    k = rng.choice([0, 1])
+    values = [k, float(k), bool(k)]
+    rng.shuffle(values)
+    for val in values + [rng.choice(values)]:
+        ctx.count("oracle.equal_values_of_other_kinds")
+        wit = {"value": repr(val), "types": [t.__name__ for t in types], "order": [repr(v) for v in values]}
+        try:
+            obj = V.Dynamic(types, val)
+            got = obj.get()
+            fresh = V.Dynamic(types)
+            fresh.decode(obj.encode())
+            back = fresh.get()
+        except Exception as exc:
+            ctx.violation(f"dynamic-plain-raises:{type(exc).__name__}", {**wit, "error": repr(exc)[:200]})
+            return
+        # a Python bool is an int as well: it is held as a boolean when Boolean stands before every integer type of the list
+        # (the list order decides, like everywhere in Dynamic), otherwise as that integer
+        want = val
+        if isinstance(val, bool) and types:
+            names = [t.__name__ for t in types]
+            first_int = min((names.index(n) for n in names if n[0] in "UI" and n[1:].isdigit()), default=len(names))
+            if names.index("Boolean") > first_int:
+                want = int(val)
+        for label, x in (("held", got), ("decoded", back)):
+            if type(x) is not type(want) or x != want:
+                ctx.violation(f"dynamic-plain-value-comes-back-as-another-kind:{type(val).__name__}-as-{type(x).__name__}",
+                              {**wit, "where": label, "got": repr(x)})
+                return
 
 
 def _dataitem_cases(ctx):
@@ -504,3 +554,5 @@ def run(ctx):
             _anyvalue_case(ctx, depth=6 if i % 50 == 7 else 3)
         else:
             _plain_dynamic_case(ctx)
+            if i % 40 == 9:
+                _equal_values_of_other_kinds(ctx)
